@@ -7,6 +7,7 @@
                     | crcompact <msg>   (runner-style compactInstanceIfNeeded(msg))
    <msg> is spelled out as in Ssv/Model/Qbft/Wire.lean. -/
 import Ssv.Model.Qbft.Wire
+import Ssv.Model.Qbft.Faulty
 open Ssv Ssv.Wire Ssv.Qbft Ssv.Qbft.Wire
 
 structure DState where
@@ -30,8 +31,16 @@ def doReset (ws : List String) : Option DState := do
     (← kvNat ws "cap") (← parseNatList (← kv ws "bad") "+")
   pure { cfg := cfg, ctrlMode := mode == "ctrl", inst := newInstance (← kvNat ws "h"), ctrl := newController }
 
+/-- optional `nf=a|b` on start / deliver / timeout ops: the operator's own Broadcast fails after / before sending -/
+def netFaultOf (ws : List String) : NetFault :=
+  match kv ws "nf" with
+  | some "a" => .after
+  | some "b" => .before
+  | _ => .none
+
 def step (d : DState) (line : String) : DState × String :=
   let ws := words line
+  let nf := netFaultOf ws
   match ws with
   | "reset" :: rest =>
     match doReset rest with
@@ -41,28 +50,28 @@ def step (d : DState) (line : String) : DState × String :=
     match kvNat rest "v" with
     | some v =>
       let h := (kvNat rest "h").getD d.inst.height
-      let st := start d.cfg d.inst v h
+      let st := startF nf d.cfg d.inst v h
       ({ d with inst := st.st }, fmtStep d.cfg st)
     | none => (d, "bad-op")
   | "deliver" :: rest =>
     match parseMsg rest with
-    | some m => let st := processMsg d.cfg d.inst m; ({ d with inst := st.st }, fmtStep d.cfg st)
+    | some m => let st := processMsgF nf d.cfg d.inst m; ({ d with inst := st.st }, fmtStep d.cfg st)
     | none => (d, "bad-op")
-  | ["timeout"] => let st := uponRoundTimeout d.cfg d.inst; ({ d with inst := st.st }, fmtStep d.cfg st)
+  | "timeout" :: _ => let st := uponRoundTimeoutF nf d.cfg d.inst; ({ d with inst := st.st }, fmtStep d.cfg st)
   | ["compact"] => let s := compact d.inst; ({ d with inst := s }, "ok | " ++ fmtState d.cfg s)
   | ["compactcopy"] => let s := compactCopy d.inst; ({ d with inst := s }, "ok | " ++ fmtState d.cfg s)
   | ["stop"] => let s := forceStop d.inst; ({ d with inst := s }, "ok | " ++ fmtState d.cfg s)
   | "cstart" :: rest =>
     match kvNat rest "h", kvNat rest "v" with
-    | some h, some v => let st := d.ctrl.startNewInstance d.cfg h v; ({ d with ctrl := st.ct }, fmtCStep d.cfg st)
+    | some h, some v => let st := d.ctrl.startNewInstanceF nf d.cfg h v; ({ d with ctrl := st.ct }, fmtCStep d.cfg st)
     | _, _ => (d, "bad-op")
   | "cdeliver" :: rest =>
     match parseMsg rest with
-    | some m => let st := d.ctrl.processMsg d.cfg m; ({ d with ctrl := st.ct }, fmtCStep d.cfg st)
+    | some m => let st := d.ctrl.processMsgF nf d.cfg m; ({ d with ctrl := st.ct }, fmtCStep d.cfg st)
     | none => (d, "bad-op")
   | "ctimeout" :: rest =>
     match kvNat rest "h", kvNat rest "r" with
-    | some h, some r => let st := d.ctrl.onTimeout d.cfg h r; ({ d with ctrl := st.ct }, fmtCStep d.cfg st)
+    | some h, some r => let st := d.ctrl.onTimeoutF nf d.cfg h r; ({ d with ctrl := st.ct }, fmtCStep d.cfg st)
     | _, _ => (d, "bad-op")
   | "ccompact" :: rest =>
     match kvNat rest "h" with
